@@ -167,6 +167,8 @@ func dumpEngine(p *Program, what string) {
 			}
 		}
 		fmt.Println("undecided:", vt.ve.undecided)
+	case "sym":
+		dumpSym(p)
 	case "block":
 		var n int
 		fmt.Sscan(os.Getenv("BLOCK"), &n)
